@@ -44,9 +44,11 @@ theorem hasK_flatMap {rs : List (Resp K)} {u : K} :
   · rintro ⟨f, ⟨r, hr, hf⟩, h⟩; exact ⟨r, hr, f, hf, h⟩
   · rintro ⟨r, hr, f, hf, h⟩; exact ⟨f, ⟨r, hr, hf⟩, h⟩
 
+omit [DecidableEq K] in
 theorem plainL_of_isMapOf {wk : K} {isWild : K → Bool} {l m : List (Found K)} (h : IsMapOf l m)
     (hp : PlainL wk isWild l) : PlainL wk isWild m := fun f hf => hp f (h.1 f hf)
 
+omit [DecidableEq K] in
 /-- children of a list reducer: what `errs = []`, `notes = []` of the parent say about them -/
 theorem child_clean {rs : List (Resp K)} {extra : List String}
     (he : rs.flatMap (·.errs) = []) (hn : rs.flatMap (·.notes) ++ extra = []) :
@@ -391,6 +393,31 @@ theorem expand_exact1 (hst : Stage1 sys) (hc : Coherent (specSys sys u cw) I) :
           | true => simp [hrb] at hcut
         cases hp with
         | diff hb hneg => exact out_of_base (base_has (cb hbc hb)) (notHas_of_negP hneg)
+
+/-- **C06, wildcard-free stage, every schedule.**  An answer of `ListUsers` without error and without
+ghost note returns `u` only if `u` definitely holds the relation and returns every `u` that possibly
+holds it (so, when no condition is unevaluable, exactly the permitted subjects). -/
+theorem lu_exact1 (hst : Stage1 sys) (hc : Coherent (specSys sys u cw) I) (root : N) (a : Answer K)
+    (h : ListUsersRel sys limit root a) (he : a.errs = []) (hn : a.notes = []) :
+    (u ∈ a.users → D (specSys sys u cw) I [] root) ∧ (P (specSys sys u cw) I [] root → u ∈ a.users) := by
+  obtain ⟨r, m, hexp, hm, rfl⟩ := h
+  simp only [answerOf] at he hn ⊢
+  obtain ⟨hnr, hcl⟩ := List.append_eq_nil_iff.mp hn
+  have hclash : clash r.found = false := noteIf_nil hcl
+  obtain ⟨_, hA, hB, _⟩ := expand_exact1 sys limit u cw I hst hc hexp (.node root) he hnr
+  constructor
+  · intro hu
+    obtain ⟨f, hf, hfu, hfs⟩ := mem_finalOf.mp hu
+    have hD := hA (hasK_iff.mpr ⟨f, hm.1 f hf, hfu, hfs⟩)
+    simp only [proj] at hD
+    cases hD with
+    | node hn' => exact hn'
+  · intro hp
+    have hh := hB (by simp only [proj]; exact .node hp)
+    obtain ⟨g, hg, hgu, hgs⟩ := hasK_iff.mp hh
+    obtain ⟨f, hf, hfu⟩ := hm.2.1 g hg
+    refine mem_finalOf.mpr ⟨f, hf, hfu.trans hgu, ?_⟩
+    rw [clash_false hclash (hm.1 f hf) hg hfu]; exact hgs
 
 end
 end OpenFGAVerif.ListUsers
